@@ -11,6 +11,7 @@ Decided clauses (necessary conditions, see DESIGN.md §4 C01):
   C01.g  state derived from a parameter is refreshed when set_params writes it
   C01.h  the receiver of a nested set_params is not replaced afterwards
   C01.i  constructor defaults are immutable objects
+  C01.j  get_params / to_dict never return an object kept on the estimator
 """
 
 from __future__ import annotations
@@ -35,6 +36,7 @@ RULES = {
     "C01.f": "set_params does not rebuild the parameter store from the given keys alone",
     "C01.g": "derived state is recomputed after set_params writes its source",
     "C01.h": "a nested set_params acts on the object that stays in the attribute: no later replacement of the receiver inside set_params",
+    "C01.j": "get_params / to_dict return a mapping built at the call, not an object stored in an attribute (may-alias of the returned value)",
     "C01.i": "constructor defaults are immutable (no estimator instance, list or dict shared by all default-built instances)",
 }
 
@@ -202,37 +204,42 @@ def _rebinding_preserves(repo, init: FunctionInfo, n: ast.AST, p: str) -> bool:
     """`p = <value>` keeps the caller's object unless a test on p itself chose a
     default: every alternative of the value (branches followed through locals,
     E-GUARD facts) is the parameter p, or sits under a fact that mentions p"""
-    from .sem import guarded_values, xt
+    from .sem import guarded_values, xt, conds_at
 
-    probe = ast.Name(id=p, ctx=ast.Load())
-    # the value of p just after the statement: evaluate at the next use of p
-    nxt = None
-    for m in own_nodes(init.node):
-        if isinstance(m, ast.Name) and m.id == p and isinstance(m.ctx, ast.Load) and getattr(m, "lineno", 0) >= getattr(n, "lineno", 0):
-            st = enclosing_stmt(m)
-            if st is not n and not any(st is x for x in ast.walk(n)):
-                nxt = st
-                break
-    if nxt is None:
+    # the value bound to p by this statement
+    v = None
+    if isinstance(n, ast.Assign):
+        for t in n.targets:
+            if isinstance(t, ast.Name) and t.id == p:
+                v = n.value
+            elif isinstance(t, (ast.Tuple, ast.List)) and isinstance(n.value, (ast.Tuple, ast.List)) and len(t.elts) == len(n.value.elts):
+                for te, ve in zip(t.elts, n.value.elts):
+                    if isinstance(te, ast.Name) and te.id == p:
+                        v = ve
+    if v is None:
         return False
     try:
-        alts = guarded_values(repo, init, probe, nxt)
+        here = conds_at(repo, init, n)
+        alts = guarded_values(repo, init, v, n)
     except AnalysisError:
         return False
     if not alts:
         return False
-    for conds, v, _ in alts:
-        if xt(v) == p:
-            continue
-        mentions = False
+
+    def mentions(conds) -> bool:
         for ctext_, _pol in conds:
             try:
                 ce = ast.parse(ctext_, mode="eval")
             except SyntaxError:
                 continue
             if any(isinstance(x, ast.Name) and x.id == p for x in ast.walk(ce)):
-                mentions = True
-        if not mentions:
+                return True
+        return False
+
+    for conds, val, _ in alts:
+        if xt(val) == p:
+            continue
+        if not (mentions(conds) or mentions(here)):
             return False
     return True
 
@@ -1138,6 +1145,36 @@ def check_i(ck, repo):
                 ck.violated("C01.i", init, f"{arg.arg}={src_of(d)}", f"{ci.name}.__init__: the default of '{arg.arg}' is a mutable object created once at definition time and shared by all default-built instances: set_params({arg.arg}__...=) on one instance changes the parameters of the others")
 
 
+def check_j(ck, repo):
+    """get_params hands out a mapping the caller may edit (and the wrappers of
+    this package do: `res = self.P.to_dict(); res["model"] = ..`): what it
+    returns is built at the call, never an object kept in an attribute"""
+    from .sem import effects
+    from engine.effects import direct
+
+    eff = effects(repo)
+    for ci in sorted(repo.all_classes(), key=lambda c: c.qualname):
+        for mname in ("get_params", "to_dict"):
+            fi = ci.methods.get(mname)
+            if fi is None:
+                continue
+            try:
+                cfg, IN, to_dict = eff._states(fi)
+            except Exception:
+                continue
+            bad = None
+            for n in cfg.nodes:
+                if n.kind == "return" and n.ast is not None and n.ast.value is not None and n.id in IN:
+                    roots = direct(eff.alias(n.ast.value, to_dict(IN[n.id]), fi))
+                    kept = sorted(r for r in roots if r.startswith("self."))
+                    if kept:
+                        bad = (n.ast, kept)
+            if bad is None:
+                ck.holds("C01.j", fi, f"{ci.name}.{mname}: a mapping built at the call", "the returned mapping is not an object stored on the estimator")
+            else:
+                ck.violated("C01.j", fi, bad[0], f"{ci.name}.{mname} returns the object kept in {bad[1][0]}: callers that complete or edit the returned mapping (the learner/stacking wrappers add model__* keys, SkBase.set_params updates it) change the stored parameters, so later get_params/clone report keys and values that were never set")
+
+
 def run(ck):
     repo = ck.repo
     for k, v in RULES.items():
@@ -1151,6 +1188,7 @@ def run(ck):
     check_g(ck, repo)
     check_h(ck, repo)
     check_i(ck, repo)
+    check_j(ck, repo)
     ck.extra["estimator_classes"] = len(estimator_classes(repo))
     ck.extra["key_families"] = nf
     # vacuity guards (instance counts confirmed by hand on the pinned tree)
@@ -1159,6 +1197,7 @@ def run(ck):
     ck.require_count("C01.d", 2, "model__, models_{i}__, c_, e_")
     ck.require_count("C01.e", 2, "model/method and models/method literal keys")
     ck.require_count("C01.h", 2, "nested set_params of the learner, the stacking and ClassifierAfterKMeans")
+    ck.require_count("C01.j", 3, "custom get_params and SkLearnParameters.to_dict")
     ck.require_count("C01.i", 80, "constructor defaults of the estimator classes")
 
 
@@ -1187,6 +1226,7 @@ WITNESSES = [
     {"name": "cak-replace-after-nested", "file": _K, "rule": "C01.h", "old": '        self.clus.set_params(**pc)\n        self.estimator.set_params(**pe)\n', "new": '        self.clus.set_params(**pc)\n        self.estimator.set_params(**pe)\n        if "estimator_" in values:\n            self.estimator = values["estimator_"]\n'},
     {"name": "piecewise-shared-default", "file": "mlinsights/mlmodel/piecewise_estimator.py", "rule": "C01.i", "old": "    def __init__(self, binner=None, estimator=None, n_jobs=None, verbose=False):\n        if estimator is None:\n            estimator = LinearRegression()", "new": "    def __init__(self, binner=None, estimator=LinearRegression(), n_jobs=None, verbose=False):\n        if estimator is None:\n            estimator = LinearRegression()"},
     {"name": "cak-skip-literal-keys-then-late-store", "file": _K, "rule": "C01.h", "old": '        self.clus.set_params(**pc)\n', "new": '        self.clus.set_params(**pc)\n        self.clus = self.clus\n'},
+    {"name": "parameters-to-dict-cached", "file": "mlinsights/sklapi/sklearn_parameters.py", "rule": "C01.j", "old": "        return {k: getattr(self, k) for k in self.Keys}\n", "new": "        if getattr(self, \"_dict\", None) is None:\n            self._dict = {k: getattr(self, k) for k in self.Keys}\n        return self._dict\n"},
     {"name": "ar-estimator-conditional", "file": "mlinsights/timeseries/ar.py", "rule": "C01.a", "old": "        else:\n            self.estimator = estimator\n", "new": ""},
 ]
 TWINS = [
